@@ -684,6 +684,8 @@ pub fn s_hist(cx: &mut Ctx) {
                 34 => {
                     cx_op!(cx, format!("low {}", a));
                     cx_op!(cx, format!("high {}", a));
+                    cx_op!(cx, format!("acc {}", b));
+                    cx.op("debugfmt".into());
                 }
                 35 => {
                     let e = gen_expr(cx, &[a, b, c], 2);
@@ -2674,7 +2676,11 @@ pub fn s_big(cx: &mut Ctx) {
         cx.ex.begin_case();
         cx.ex.tt = None;
         cx.ex.scan_every = 64;
-        cx_op!(cx, format!("newdefault {}", sb));
+        if ci % 4 == 3 {
+            cx.op("default".into()); // `Bdd::default()`
+        } else {
+            cx_op!(cx, format!("newdefault {}", sb));
+        }
         let mut hs = vec![0usize, 1];
         for v in 1..=n {
             hs.push(cx_op!(cx, format!("var {}", v)));
